@@ -2186,7 +2186,13 @@ def crosscov_vector(x, y, nlags=None):
         nlags = N
     nc = x.shape[0]
 
-    rxy = np.empty((nc, nc, nlags))
+    # the lagged products and their averages are formed in floating point
+    # (complex for complex data): integer recordings must not wrap around in
+    # their own narrow type, the imaginary part must not be discarded
+    dtype = np.result_type(x, y, np.float64)
+    x = np.asarray(x, dtype=dtype)
+    y = np.asarray(y, dtype=dtype)
+    rxy = np.empty((nc, nc, nlags), dtype=dtype)
 
     # rxy(k) = E{ x(t)y*(t-k) } ( * = conj transpose )
     # Take the expectation over an outer-product
